@@ -4,7 +4,7 @@
 From Coq Require Import Extraction ExtrOcamlBasic.
 From Coq Require Import NArith ZArith List.
 From GV Require Import lib.Bytes model.SortKey model.SortSpec.
-Extraction "extract/model.ml"
+Extraction "extract/sort_model.ml"
   Bytes.lex_cmp Bytes.be_bytes
   SortKey.encode_row SortKey.encode_col SortKey.row_cmp SortKey.col_cmp SortKey.val_cmp
   SortSpec.check_order_slice SortSpec.isort SortSpec.sortedb.
